@@ -369,6 +369,32 @@ def finish(prop, pid, tier, seed, cfg, results, worker_fail, ncases, wall):
         cm = real_mount_crosscheck(prop, pid, tier, seed, results,
                                    cfg['cold_sample'], kind='cold')
         cov['fresh_interpreter_crosscheck'] = cm
+    # a violation seen on REAL mounts (the kernel's own semantics) or in a
+    # fresh interpreter is a violation, not a fidelity question, when the
+    # normal run of the same case was clean: the replay saw more, not less
+    by_i = dict((r['i'], r) for r in results)
+    for kind, info in (('real-mounts', rm), ('fresh-interpreter', cm)):
+        for dg in list((info or {}).get('disagreements') or []):
+            if dg['real'][0] == 'violation' and dg['virtual'][0] != 'violation':
+                mechs = [m for m in dg['real'][1]
+                         if known_match(pid, m, known) is None]
+                if not mechs:
+                    continue
+                r = by_i.get(dg['index'])
+                v = {'mechanism': '%s:%s' % (kind, mechs[0]),
+                     'detail': dict(dg, note='seen only in the %s replay of this '
+                                    'case (python -m vf.realrun)' % kind)}
+                unlisted.append((r, v))
+                info['disagreements'].remove(dg)
+                path = os.path.join(OUT, 'replay', '%s-s%d-i%d.json' % (pid, seed, r['i']))
+                with open(path, 'w') as f:
+                    json.dump({'property': pid, 'seed': seed, 'tier': tier,
+                               'index': r['i'], 'case': r.get('case'),
+                               'violation': v, 'replay_mode': kind}, f,
+                              indent=1, default=str)
+                if len(replays) < 10:
+                    replays.append((path, v))
+                seen_mech[v['mechanism']] = seen_mech.get(v['mechanism'], 0) + 1
     ev = {
         'property_id': pid, 'tier': tier, 'seed': seed,
         'level': cfg.get('level', 'exploration'),
